@@ -7,6 +7,10 @@
 (*                   raw-control-chars option                                               *)
 (*   got, sent       bytes received by the consumer / bytes of the complete output            *)
 (*   pagerDoneFirst  the pager had finished when delta returned                              *)
+(*   plog            the observable events in the order recorded ("start", "got", "done",      *)
+(*                   "delta-exit"); allowed = the event sequences of the terminating behaviours  *)
+(*                   of PagerProto for this kind of pager (reads everything / stops, leaves /     *)
+(*                   stays)                                                                        *)
 EXTENDS Pager, TLC, Json, IOUtils
 Rec == ndJsonDeserialize(IOEnv.TRACE)
 VARIABLES l, failed
@@ -24,6 +28,9 @@ Why(e) ==
   ELSE IF sc.out = "pager" /\ LessArgsAreDeltas(sc) /\ ~e.rflag THEN "less-without-R"
   ELSE IF ~DeliveredOK(sc, e.got, e.sent, e.gotHash, e.sentHash) THEN "not-delivered"
   ELSE IF sc.out = "pager" /\ ~e.pagerDoneFirst THEN "delta-exited-before-pager"
+  \* the events an observer recorded (pager started / has its input / is done, delta exited) are a behaviour of PagerProto:
+  \* one of the logs TLC printed for that kind of pager (allowed, from MC_PagerProto)
+  ELSE IF sc.out = "pager" /\ ~\E i \in DOMAIN e.allowed : e.allowed[i] = e.plog THEN "not-a-behaviour-of-PagerProto"
   ELSE ""
 
 Init == l = 1 /\ failed = <<>>
